@@ -486,7 +486,9 @@ def long_files(rng, tier, opts):
     """records of hundreds of lines (line numbers and byte offsets beyond one byte, buffers much shorter than a record): blocks of bases and of
     N of random lengths, written 1, 2, 3 or 60 to a line; indexed under small and large buffers, the derived assembly streamed, a sample of intervals read"""
     out = []
-    for width, total in ((1, 300), (2, 640), (3, 1000), (60, 20000))[: 3 if tier == "quick" else 4]:
+    # (a 20 000-residue record at width 60 was tried for the thorough tier: one TLC judge shard then ran for half an hour; the 70 000-residue
+    #  record below, streamed whole, is judged in seconds because it has no sampled multi-row assemblies)
+    for width, total in ((1, 300), (2, 640), (3, 1000)):
         for _ in range(2 if tier == "quick" else 6):
             res = []
             while len(res) < total:
